@@ -29,7 +29,13 @@ def run(tier, seed):
     for name in G.REG:
         fam = G.REG[name][1]
         for cb in (True, False):
-            for args in [G.sample_args(rng, name, cb, tier) for _ in range(reps)] + G.corner_args(name, cb):
+            small = []
+            if G.REG[name][3]:          # the smallest degrees of the right parity (1 or 2, then 3 or 4): every degree belongs to the domain
+                par = G.REG[name][2]
+                for dg in (2 - par if par else 2, 4 - par if par else 4):
+                    a_ = G.sample_args(rng, name, cb, tier, degree=(1 if (par and dg == 1) else dg))
+                    small.append(a_)
+            for args in [G.sample_args(rng, name, cb, tier) for _ in range(reps)] + G.corner_args(name, cb) + small:
                 o = {}
                 for eb in (True, False):
                     for rsc in (True, False):
@@ -37,8 +43,13 @@ def run(tier, seed):
                 ctx.count("gen:" + name)
                 ctx.case([name, args, cb], True, {"generator": name, "args": args, "chebyshev_basis": cb})
                 replay = {"generator": name, "args": args, "chebyshev_basis": cb}
-                if any(v["status"] != "ok" for v in o.values()):
+                if all(v["status"] != "ok" for v in o.values()):
                     ctx.count("raises (C14's business)")
+                    continue
+                if any(v["status"] != "ok" for v in o.values()):
+                    # answered under some option combinations, refused under others: the OPTIONS decide whether coefficients exist
+                    bad = {"eb=%s,rsc=%s" % k: (v.get("exc"), v.get("msg")) for k, v in o.items() if v["status"] != "ok"}
+                    ctx.violation("c17:options-change-outcome:" + name, "the same request is answered under some (ensure_bounded, return_scale) combinations and raises under others: %s" % sorted(bad), dict(replay, raised=bad))
                     continue
                 # (a) coefficients independent of return_scale
                 for eb in (True, False):
